@@ -34,6 +34,9 @@ CLAIMED = {
  "C12": ("ExtractCommentTags proved equal to a recursive specification (every line classified exactly once, order kept, values per key in order, default markers), splitKV proved against the statement (first '=' or ' '), oneOf. Partial: the comment index invariant of newPkg and Doc/Comment look-ups are added as built.",
          "strings.Trim / strings.IndexAny extern contracts; go/parser comment attachment assumed",
          "deductive verification: loop invariants against recursive executable spec functions", "3/C12"),
+ "C13": ("newPkg: the name->object tables of a loaded package are proved to hold EXACTLY the package-scope type names, constants and functions of the type checker (both inclusions, for every types.Info.Defs map and every iteration order: a function-local declaration or type parameter of the same name can never be recorded); Type/Types/Constant(s)/Function(s) return those tables; every method recorded under N is declared on (an instantiation of) N, keyed by the ORIGIN type so generic T works, and MethodsOf(T,false) is exactly the value-receiver subset of MethodsOf(T,true); Imports() maps every import path to Universe.Package(path); SourceDir/Module/Files/Pkg observers. Partial: completeness of the method table (every declared method is listed) and LocateInPackage are not decided.",
+         "go/types facts assumed (listed in evidence): Scope.Lookup(obj.Name()) == obj for package-scope objects, scope functions have no receiver, Origin() idempotent; go/packages populates Imports for every import path (E-load)",
+         "deductive verification: whole-map postconditions + loop invariants over an arbitrary-order map range, discharged by SMT", "3/C13"),
  "C14": ("visits.visited marks the (function type, index) pair and reports whether it was marked (whole-map postcondition), funcResultsFromSignature yields exactly n one-element lists, Concat merges position-wise; all slice indices in these functions in bounds. Partial: the resolver's recursion structure and per-path result counts are added as built.",
          "go/types observers (Tuple.Len/At, Signature.Results) assumed; go/ast field lists contain no nil entries (requires); assignability/exactness clauses of the statement not decided",
          "deductive verification: safety + functional obligations discharged by SMT", "3/C14"),
